@@ -7,6 +7,7 @@ Part 2: the table obligations that tie the model's edge/root parameters to the m
 -/
 import SteelVerif.C04.LemmasRefine
 import SteelVerif.C04.GenEdges
+import SteelVerif.C04.LemmasOpenMark
 namespace SteelVerif.C04
 
 /-- `E` follows every field that the specification `S` says can hold a value. -/
@@ -279,6 +280,104 @@ theorem roots_complete :
     (∀ r ∈ liveSpec, liveFunctions.contains r) ∧
     (∀ s ∈ allocSites, ∀ r ∈ siteSpec, s.2.contains r) := by decide
 
+/-! ### The value that is being allocated is a root of the collection its own allocation triggers
+
+`Heap::allocate(value, …)` / `allocate_vector(values, …)` / `allocate_vector_iter(values, …)` run the collection
+policy BEFORE the slot is filled, and `NEWBOX` / the JIT's box helper have already taken the operand off the
+operand stack: while that collection runs, the only reference to whatever the operand holds is the pending
+argument itself.  `Heap::mark` pushes `root_value` and `root_vector[]` (`roots_complete`); the obligations below
+are about what the callers put there: every call of `mark_and_sweep_new` outside the verification hook passes
+the pending parameter of its enclosing function (a `None` / empty iterator where the function has a pending
+value breaks it) and the five root sets in order, and the pending parameter of each of the three allocation
+entry points reaches such a call — directly or through the collection routine it calls. -/
+
+/-- The five root sets every collection routine receives and hands on, in this order. -/
+def rootParams : List String := ["roots", "live_functions", "globals", "tls", "synchronizer"]
+
+/-- Parameters that only say whether a collection is demanded. -/
+def flagParams : List String := ["force", "force_full"]
+
+/-- The allocation entry points of `impl Heap` (those that may collect). -/
+def allocEntries : List String := ["allocate", "allocate_vector", "allocate_vector_iter"]
+
+def isHookFn (f : String) : Bool := hookFns.contains f
+
+def paramsOf (f : String) : List String := lookupT heapFns f
+
+/-- What a routine receives besides the root sets and the flag: the value / vector contents being allocated. -/
+def pendingOf (f : String) : List String :=
+  (paramsOf f).filter fun p => !rootParams.contains p && !flagParams.contains p
+
+/-- The call hands `p` to the marker as `root_value` (first argument, `Some(p)`) or as `root_vector` (second). -/
+def passesPending (args : List String) (p : String) : Bool := args.getD 0 "" == p || args.getD 1 "" == p
+
+def sitesIn (f : String) : List (List String) := (markSites.filter (·.1 == f)).map (·.2)
+
+/-- All marker calls inside `f` pass `p`, and there is one. -/
+def reachesMarker (f p : String) : Bool := !(sitesIn f).isEmpty && (sitesIn f).all (passesPending · p)
+
+/-- The parameter of `g` that receives the argument `p` of the call `g(args)`. -/
+def receivingParam (g : String) (args : List String) (p : String) : Option String :=
+  ((args.zip (paramsOf g)).find? (·.1 == p)).map (·.2)
+
+/-- Calls from `f` to collection routines other than the hook's: (callee, arguments). -/
+def realCallsFrom (f : String) : List (String × List String) :=
+  (collCalls.filter fun c => c.1 == f && !isHookFn (c.2.headD "")).map fun c => (c.2.headD "", c.2.tail)
+
+/-- The pending parameter of the entry point `f` reaches the marker on every real path: `f` has exactly one
+pending parameter; every marker call in `f` itself passes it; every collection routine `f` calls receives it in
+a parameter that all of the routine's marker calls pass; and there is at least one such path. -/
+def entryOK (f : String) : Bool :=
+  match pendingOf f with
+  | [p] =>
+    (!(sitesIn f).isEmpty || !(realCallsFrom f).isEmpty) &&
+    (sitesIn f).all (passesPending · p) &&
+    (realCallsFrom f).all fun c =>
+      match receivingParam c.1 c.2 p with
+      | some q => (pendingOf c.1).contains q && reachesMarker c.1 q
+      | none => false
+  | _ => false
+
+/-- **pending_value_is_root.**  (i) Every call of `mark_and_sweep_new` outside the hook passes every pending
+parameter of its enclosing function and then exactly the five root sets; (ii) every call among the collection
+routines hands on all five root sets; (iii) the pending value / vector of `allocate`, `allocate_vector`,
+`allocate_vector_iter` reaches the marker on every real (non-hook) path; (iv) `mark_and_sweep_new` hands its
+seven parameters to `Heap::mark` unchanged (whose pushes are the subject of `roots_complete`). -/
+theorem pending_value_is_root :
+    (∀ s ∈ markSites, isHookFn s.1 || ((pendingOf s.1).all (passesPending s.2 ·) && s.2.drop 2 == rootParams)) ∧
+    (∀ c ∈ collCalls, isHookFn (c.2.headD "") || rootParams.all (c.2.tail.contains ·)) ∧
+    (∀ f ∈ allocEntries, (heapFns.map (·.1)).contains f && entryOK f) ∧
+    (markCall == paramsOf "mark_and_sweep_new" && paramsOf "mark" == paramsOf "mark_and_sweep_new" &&
+      (paramsOf "mark").take 2 == ["root_value", "root_vector"]) := by decide
+
+/-- Non-vacuity of the obligation: the same predicate REJECTS a table in which the collection routine starts
+the marker with `None` although it was handed the pending value … -/
+example : ¬ ((["None", "empty", "roots", "live_functions", "globals", "tls", "synchronizer"] : List String).getD 0 "" == "value"
+    || (["None", "empty", "roots", "live_functions", "globals", "tls", "synchronizer"] : List String).getD 1 "" == "value") := by
+  decide
+
+/-- … and the extracted tables do contain real marker calls and real paths from the three entry points. -/
+example : (markSites.filter fun s => !isHookFn s.1).length ≥ 3 ∧ allocEntries.all (fun f => !(pendingOf f).isEmpty) := by
+  decide
+
+/-- Does the verification hook start the marker with a root set of its own (instead of going through the
+collection routines above)?  Then forced collections do not exercise the real call sites; the check reports it. -/
+def hookHasOwnMarkerCall : Bool := markSites.any fun s => isHookFn s.1
+
+/-! ### No allocation while the marker runs
+
+`gc_transparent` treats a collection as one atomic step between two operations of the program.  The code makes
+it one: every call of `Heap::allocate* / collection` is made on the heap mutex, taken inside a safepoint
+(`enter_safepoint(|thread| thread.heap.lock_arc())` — so a second thread that wants to allocate waits, parked,
+until the collection and the allocation that triggered it are over), and the mark phase itself runs between
+`stop_threads` and `resume_threads` with the other threads' stacks enumerated after the stop. -/
+
+def lockSpec : String := "thread.enter_safepoint(|thread|thread.heap.lock_arc())"
+
+theorem marking_excludes_allocation :
+    (∀ s ∈ allocLocks, s.2 == lockSpec) ∧ allocLocks.length = allocSites.length ∧
+    markProtocol = ["stop_threads", "enumerate_stacks", "push_roots", "marker", "resume_threads"] := by decide
+
 /-! ### The model instantiated with the tables -/
 
 def kindIndex (v : String) : Nat := (steelValVariants.findIdx? (· == v)).getD steelValVariants.length
@@ -333,6 +432,59 @@ theorem mark_sound_full_partial (cs : List Cell) (roots : List Val) (hnd : AddrN
     (a : Addr) (hr : Reach specEdges cs roots a) :
     ∀ d ∈ (markLoop implEdgesBoth (markAll cs) roots 0).1, d.addr = a → d.reachable = true :=
   mark_sound_tables cs roots hnd a (hOpen a hr)
+
+/-! ### The open continuation mark: the hypothesis of `mark_sound_full_partial`, derived
+
+`LemmasOpenMark.lean` models the VM's stack discipline around `call/cc` (operand stack, frames with their `sp`,
+open marks attached to the receiver's frame, closed when that frame is popped): the running frame touches the
+operand stack only from its own `sp` upwards, so the region an open mark copied is unchanged while the mark is
+open. -/
+
+/-- **open_mark_covered.**  For every list of VM operations — anything the running frame does to its own region
+(push, pop, write, move-out at a last use, tail-call arguments), calls, `call/cc`, returns / unwinding (which
+close the marks of the popped frame), invocations of a still-open continuation — every value held by every open
+continuation mark is on the operand stack (a root set of every collection). -/
+theorem open_mark_covered (ops : List OpenMark.VOp) :
+    ∀ f ∈ (OpenMark.run {} ops).frames, ∀ m ∈ f.marks, ∀ v ∈ m.vals, v ∈ (OpenMark.run {} ops).stack :=
+  OpenMark.marks_on_stack _ _ (OpenMark.run_inv ops {} OpenMark.Inv_init)
+
+/-- Non-vacuity: `call/cc` inside a frame that holds a handle; the running receiver pushes and pops; the mark is
+open and holds the handle, which is on the stack. -/
+example :
+    let vm := OpenMark.run {} [.localOp [.ref 7 0], .call 0, .localOp [.ref 8 1, .atom 3], .callcc, .localOp [.atom 1], .localOp []]
+    (vm.frames.map fun f => f.marks.map fun m => (m.sp, m.vals.length)) = [[(1, 2)], []] ∧ vm.stack.length = 3 := by
+  decide
+
+/-- … and once the receiver's frame is popped no open mark is left (it has been closed). -/
+example :
+    ((OpenMark.run {} [.localOp [.ref 7 0], .callcc, .localOp [.atom 1], .ret (.atom 2)]).frames.map (·.marks.length)) = [] := by
+  decide
+
+/-- **mark_sound, full specification**, from a structural condition instead of the reachability hypothesis:
+if, in every root and in every slot value, whatever sits under a field the traversal does not follow (the fields
+of an open continuation mark, a closed mark's `current_frame` handler) is itself among the roots — for the stack
+values of an open mark that is `open_mark_covered`; for the captures / handler of its `current_frame`
+(`stack_frames.last()`) it is `roots_complete` (`function_stack[].captures[]`, `frame.attachments.handler`) —
+then every slot reachable along ALL value-holding fields is marked by the marker that exists. -/
+theorem mark_sound_full_covered (cs : List Cell) (roots : List Val) (hnd : AddrNodup cs)
+    (hroots : ∀ r ∈ roots, OpenMark.Covered specEdges specEdgesProved roots r)
+    (hcells : ∀ c ∈ cs, OpenMark.Covered specEdges specEdgesProved roots c.value)
+    (a : Addr) (hr : Reach specEdges cs roots a) :
+    ∀ d ∈ (markLoop implEdgesBoth (markAll cs) roots 0).1, d.addr = a → d.reachable = true :=
+  mark_sound_full_partial cs roots hnd (fun _ h => OpenMark.reach_covered hroots hcells h) a hr
+
+/-- Non-vacuity of `Covered`: a continuation value (kind 22 = `ContinuationFunction`) whose open-mark field
+(field 5 = `Open.current_stack_values[]`) holds a handle that is also a root. -/
+example : OpenMark.Covered specEdges specEdgesProved [.ref 4 0, .node 22 [(5, .ref 4 0)]] (.node 22 [(5, .ref 4 0)]) := by
+  refine OpenMark.Covered.node _ _ ?_ ?_
+  · intro p hp _ hS'
+    simp only [List.mem_singleton] at hp
+    subst hp
+    exact absurd hS' (by decide)
+  · intro p hp _ _
+    simp only [List.mem_singleton] at hp
+    subst hp
+    simp
 
 /-- **gc_transparent for the marker that exists.** -/
 theorem gc_transparent_tables (P : Params) (hP : 0 < P.chunk) (hI : 0 < P.init) (ops : List Op)
